@@ -936,8 +936,10 @@ func main() {
 			}
 		}
 		concurrentReaders(n / 10)
+		concurrentFirstCalls(n/40, true, false)
 	} else {
 		concurrentReaders(c.N)
+		concurrentFirstCalls(c.N/15, true, true)
 	}
 	c.Finish()
 }
